@@ -24,6 +24,7 @@ const simPkg = modPath + "/pkg/zzsim"
 const syncPkg = modPath + "/pkg/zzsimsync"
 const flagPkg = modPath + "/pkg/zzsimflag"
 const osPkg = modPath + "/pkg/zzsimos"
+const timePkg = modPath + "/pkg/zzsimtime"
 const bigFile = 300000
 
 type site struct {
@@ -47,6 +48,8 @@ type report struct {
 	Knob        map[string]string `json:"knob"`
 	Finalizers  []string          `json:"finalizers"`     // runtime.SetFinalizer calls redirected to the simulator
 	Timers      []string          `json:"timers"`         // real-clock waits the simulator does not own
+	TimeRewrite []string          `json:"time_rewritten"` // files whose import "time" now reads and waits on the simulated clock
+	ClockWaits  int               `json:"clock_waits"`    // Sleep/After/AfterFunc/NewTimer/NewTicker/Tick call sites brought under the simulated clock
 	CLI         []string          `json:"cli_redirected"` // process-global facilities redirected in cmd/php-parser
 	CLIMain     bool              `json:"cli_main"`       // func main found and exported as ZZMain
 	SyncLib     int               `json:"sync_lib"`       // library files importing sync or sync/atomic
@@ -56,7 +59,7 @@ type report struct {
 	NewPoolNoted  []string `json:"newpool_noted"`
 }
 
-var noKnob bool
+var noKnob, noTime bool
 
 var rep = report{Files: map[string]int{}, Knob: map[string]string{}}
 
@@ -532,17 +535,51 @@ func processFile(root, path string, isCmd bool) error {
 		}
 	}
 	if timeName != "" {
+		clock := false
+		var waits []string
 		ast.Inspect(f, func(n ast.Node) bool {
 			if se, ok := n.(*ast.SelectorExpr); ok {
 				if id, ok := se.X.(*ast.Ident); ok && id.Name == timeName && id.Obj == nil {
 					switch se.Sel.Name {
 					case "Sleep", "After", "AfterFunc", "NewTimer", "NewTicker", "Tick":
-						rep.Timers = append(rep.Timers, fmt.Sprintf("%s:%d time.%s", rel, fset.Position(se.Pos()).Line, se.Sel.Name))
+						waits = append(waits, fmt.Sprintf("%s:%d time.%s", rel, fset.Position(se.Pos()).Line, se.Sel.Name))
+						clock = true
+					case "Now", "Since", "Until", "Timer", "Ticker":
+						clock = true
 					}
 				}
 			}
 			return true
 		})
+		if clock && !noTime {
+			// the file touches the clock: its "time" becomes the simulated clock
+			for _, im := range f.Imports {
+				if im.Path.Value == `"time"` {
+					im.Path.Value = strconv.Quote(timePkg)
+					if im.Name == nil {
+						im.Name = ast.NewIdent("time")
+					}
+				}
+			}
+			rep.TimeRewrite = append(rep.TimeRewrite, rel)
+			rep.ClockWaits += len(waits)
+		} else {
+			rep.Timers = append(rep.Timers, waits...)
+		}
+	}
+	// deadlines of package context run on the runtime's own timers
+	for _, im := range f.Imports {
+		if im.Path.Value == `"context"` {
+			cn := importName(im)
+			ast.Inspect(f, func(n ast.Node) bool {
+				if se, ok := n.(*ast.SelectorExpr); ok {
+					if id, ok := se.X.(*ast.Ident); ok && id.Name == cn && id.Obj == nil && (se.Sel.Name == "WithTimeout" || se.Sel.Name == "WithDeadline" || se.Sel.Name == "WithTimeoutCause" || se.Sel.Name == "WithDeadlineCause") {
+						rep.Timers = append(rep.Timers, fmt.Sprintf("%s:%d context.%s", rel, fset.Position(se.Pos()).Line, se.Sel.Name))
+					}
+				}
+				return true
+			})
+		}
 	}
 	// runtime.Gosched() -> zzsim.Gosched(), runtime.SetFinalizer -> zzsim.SetFinalizer
 	keepRuntime := false
@@ -713,6 +750,7 @@ func main() {
 	root := flag.String("root", "", "scratch copy of the repository")
 	out := flag.String("report", "", "write JSON report here")
 	flag.BoolVar(&noKnob, "noknob", false, "leave DefaultBlockSize a constant")
+	flag.BoolVar(&noTime, "notime", false, "leave the import \"time\" alone (no simulated clock)")
 	gen := flag.String("gen", "", "write generated harness sources (recorder, knob, site classes) into this directory")
 	flag.Parse()
 	var files []string
@@ -856,7 +894,7 @@ func generate(root, dir string) error {
 		b.WriteString("},\n")
 	}
 	b.WriteString("}\n\n// markSites marks the sites of one class for the site-biased scheduler.\nfunc markSites(class string) {\n\tfor i := range zzsim.SiteMark {\n\t\tzzsim.SiteMark[i] = 0\n\t}\n\tfor _, r := range siteClassRanges[class] {\n\t\tfor i := r[0]; i <= r[1] && i < zzsim.MaxSites; i++ {\n\t\t\tzzsim.SiteMark[i] = 1\n\t\t}\n\t}\n\tif class == \"sync\" {\n\t\tzzsim.SiteMark[zzsim.SiteSyncRel], zzsim.SiteMark[zzsim.SiteSyncAcq] = 1, 1\n\t}\n}\n")
-	fmt.Fprintf(&b, "\nconst totalSites = %d\n\n// the tree registers finalizers: automatic GC is switched off, forced GCs place them\nconst usesFinalizers = %v\n", len(rep.Sites), len(rep.Finalizers) > 0)
+	fmt.Fprintf(&b, "\nconst totalSites = %d\n\n// the tree registers finalizers: automatic GC is switched off, forced GCs place them\nconst usesFinalizers = %v\n\n// the tree waits on the clock (Sleep, timers, tickers): the simulated clock's spawner is started\nconst usesClock = %v\n", len(rep.Sites), len(rep.Finalizers) > 0, rep.ClockWaits > 0)
 	return os.WriteFile(filepath.Join(dir, "sites_gen.go"), b.Bytes(), 0644)
 }
 
